@@ -89,7 +89,8 @@ Definition jpeg_dec (a : bytes) : option (list jseg) :=
 Definition is_app11_long (s : jseg) : bool := (jm s =? M_APP11) && (16 <? len (jc s)).
 
 (* get_cai_segments, as one mark per segment; state: identifier of the current C2PA box and the
-   number of its segments seen so far.  An APP11 segment of 17..27 bytes met outside a
+   number of its segments seen so far.  A continuation carries the same box instance number and the
+   next packet sequence number (fix d67d17dcd).  An APP11 segment of 17..27 bytes met outside a
    continuation is Error::InvalidAsset. *)
 Fixpoint jcai (segs : list jseg) (en : bytes) (cnt : N) : res (list bool) :=
   match segs with
@@ -98,7 +99,8 @@ Fixpoint jcai (segs : list jseg) (en : bytes) (cnt : N) : res (list bool) :=
     if is_app11_long s then
       let raw := jc s in
       let sen := slice raw 2 2 in
-      if (0 <? cnt) && beq en sen then
+      let z := de (slice raw 4 4) in
+      if (0 <? cnt) && (beq en sen && (z =? cnt + 1)) then
         rbind (jcai t en (cnt + 1)) (fun m => ROk (true :: m))
       else if len raw <? 28 then RErr EInvalidAsset
       else if beq (slice raw 24 4) C2PA_MARKER then
@@ -201,6 +203,10 @@ Definition jpeg_remove (a : bytes) : res bytes :=
 (* get_object_locations_from_stream *)
 Definition PLACEHOLDER_LEN : N := 62.
 
+(* the offset advance per segment: img-parts encodes a parameterless marker segment in 4 bytes although
+   JpegSegment::len() reports 2 (fix d67d17dcd) *)
+Definition jstep (s : jseg) : N := if jlen s =? 2 then 4 else jlen_e s.
+
 Fixpoint jloc_loop (segs : list jseg) (index : nat) (ph : option nat) (en : bytes) (cnt curr : N)
          (cai : N * N) (acc : list (N * N * kind)) : res (N * (N * N) * list (N * N * kind)) :=
   match segs with
@@ -212,20 +218,22 @@ Fixpoint jloc_loop (segs : list jseg) (index : nat) (ph : option nat) (en : byte
       | None => (cai, curr)
       end in
     let sl := jlen_e s in
+    let st := jstep s in
     if jm s =? M_APP11 then
       if 16 <? len (jc s) then
         let raw := jc s in
         let sen := slice raw 2 2 in
-        if (0 <? cnt) && beq en sen then
-          jloc_loop t (S index) ph en (cnt + 1) (curr + sl) (fst cai, snd cai + sl) acc
+        let z := de (slice raw 4 4) in
+        if (0 <? cnt) && (beq en sen && (z =? cnt + 1)) then
+          jloc_loop t (S index) ph en (cnt + 1) (curr + st) (fst cai, snd cai + sl) acc
         else if len raw <? 28 then RErr EInvalidAsset
         else if beq (slice raw 24 4) C2PA_MARKER then
-          jloc_loop t (S index) ph sen 1 (curr + sl) (curr, snd cai + sl) acc
-        else jloc_loop t (S index) ph en cnt (curr + sl) cai (acc ++ [(curr, sl, KOther)])
-      else jloc_loop t (S index) ph en cnt (curr + sl) cai acc
+          jloc_loop t (S index) ph sen 1 (curr + st) (curr, snd cai + sl) acc
+        else jloc_loop t (S index) ph en cnt (curr + st) cai (acc ++ [(curr, sl, KOther)])
+      else jloc_loop t (S index) ph en cnt (curr + st) cai acc
     else if jm s =? M_APP1 then
-      jloc_loop t (S index) ph en cnt (curr + sl) cai (acc ++ [(curr, sl, KXmp)])
-    else jloc_loop t (S index) ph en cnt (curr + sl) cai (acc ++ [(curr, sl, KOther)])
+      jloc_loop t (S index) ph en cnt (curr + st) cai (acc ++ [(curr, sl, KXmp)])
+    else jloc_loop t (S index) ph en cnt (curr + st) cai (acc ++ [(curr, sl, KOther)])
   end.
 
 Definition jpeg_loc_segs (segs : list jseg) : res (list (N * N * kind)) :=
